@@ -67,16 +67,17 @@ def expectedSites : List (String × String × String × Bool × String) := [
   ("src/vm/instructions.go", "opSuicide", "AddBalance", false, "suicide")
 ]
 
-/-- the functions the model transcribes: ledger-relevant calls and every `return`, in source order
+/-- the functions the model transcribes: ledger-relevant calls, every fork test `IsProposalNNN()` (the flag
+    inventory: a new, removed or moved fork test in a ledger path changes the sequence) and every `return`, in source order
     (e.g. `AccountDB.Suicide` has no return between its nil test and zeroing the balance) -/
 def expectedOrder : List (String × List String) := [
-  ("src/core/vmexecutor.go:VMExecutor.Execute", ["BeforeExecute", "Snapshot", "Execute", "RevertToSnapshot", "deductGasFee", "return"]),
+  ("src/core/vmexecutor.go:VMExecutor.Execute", ["IsProposal013", "IsProposal006", "IsProposal007", "BeforeExecute", "IsProposal018", "Snapshot", "Execute", "IsProposal018", "RevertToSnapshot", "IsProposal027", "deductGasFee", "IsProposal006", "IsProposal007", "IsProposal013", "IsProposal015", "return"]),
   ("src/core/vmexecutor.go:VMExecutor.after", ["return", "Add", "CalculateReward", "Add", "CheckAndMove", "CheckAndMove"]),
   ("src/core/vmexecutor.go:deductGasFee", ["return", "GetBalance", "Cmp", "SubBalance", "AddBalance"]),
   ("src/executor/base_executor.go:baseFeeExecutor.BeforeExecute", ["validateNonce", "return", "ProcessFee", "return", "return"]),
   ("src/executor/contract_executor.go:contractExecutor.BeforeExecute", ["validateNonce", "return", "ProcessFee", "return", "decodeContractData", "return", "preCheckContractFee", "return", "return"]),
-  ("src/executor/contract_executor.go:contractExecutor.Execute", ["return", "IntrinsicGas", "return", "return", "Create", "Call", "GetBalance", "Cmp", "SubBalance", "AddBalance", "return", "return"]),
-  ("src/executor/contract_executor.go:preCheckContractFee", ["GetBalance", "Cmp", "Add", "return", "return"]),
+  ("src/executor/contract_executor.go:contractExecutor.Execute", ["return", "IsProposal015", "IntrinsicGas", "return", "return", "IsProposal015", "IsProposal017", "IsProposal026", "Create", "IsProposal007", "Call", "IsProposal015", "GetBalance", "Cmp", "SubBalance", "AddBalance", "return", "return"]),
+  ("src/executor/contract_executor.go:preCheckContractFee", ["IsProposal015", "GetBalance", "Cmp", "Add", "return", "return"]),
   ("src/executor/jsonrpc_executor.go:jsonrpcExecutor.BeforeExecute", ["validateNonce", "return", "ProcessFee", "return", "decodeContractData", "return", "preCheckContractFee", "return", "return"]),
   ("src/executor/miner_executor.go:minerAddExecutor.Execute", ["return", "return", "return", "AddStake"]),
   ("src/executor/miner_executor.go:minerApplyExecutor.Execute", ["return", "return", "return", "AddMiner", "return"]),
@@ -89,16 +90,16 @@ def expectedOrder : List (String × List String) := [
   ("src/service/miner_manager.go:MinerManager.RemoveMiner", ["IsContract", "SetData", "SetData", "SetData", "SetData", "return", "SetData", "SetData"]),
   ("src/service/refund_manager.go:RefundManager.CheckAndMove", ["return", "return", "AddBalance"]),
   ("src/service/refund_manager.go:RefundManager.GetRefundStake", ["GetMiner", "return", "return", "return", "RemoveMiner", "UpdateMiner", "return"]),
-  ("src/service/transaction_pool.go:TxPool.ProcessFee", ["GetBalance", "Cmp", "return", "SubBalance", "AddBalance", "return"]),
+  ("src/service/transaction_pool.go:TxPool.ProcessFee", ["GetBalance", "IsProposal026", "Cmp", "return", "SubBalance", "AddBalance", "return"]),
   ("src/storage/account/accountdb.go:AccountDB.Suicide", ["return", "GetBalance", "setBalance", "return"]),
-  ("src/storage/account/accountdb_tuntun.go:AccountDB.AddFT", ["return", "Add", "SetData", "setData", "return", "return", "AddFT"]),
-  ("src/storage/account/accountdb_tuntun.go:AccountDB.SubFT", ["return", "Cmp", "return", "SetData", "setData", "return", "return", "SubFT"]),
+  ("src/storage/account/accountdb_tuntun.go:AccountDB.AddFT", ["return", "Add", "IsProposal002", "SetData", "setData", "return", "return", "AddFT"]),
+  ("src/storage/account/accountdb_tuntun.go:AccountDB.SubFT", ["return", "Cmp", "return", "IsProposal002", "SetData", "setData", "return", "return", "SubFT"]),
   ("src/vm/evm.go:EVM.AuthCall", ["return", "Sign", "CanTransfer", "return", "Snapshot", "Sign", "return", "Transfer", "RevertToSnapshot", "return"]),
   ("src/vm/evm.go:EVM.Call", ["return", "Sign", "CanTransfer", "return", "Snapshot", "Sign", "return", "Transfer", "RevertToSnapshot", "return"]),
   ("src/vm/evm.go:EVM.CallCode", ["return", "CanTransfer", "return", "Snapshot", "RevertToSnapshot", "return"]),
   ("src/vm/evm.go:EVM.DelegateCall", ["return", "Snapshot", "RevertToSnapshot", "return"]),
   ("src/vm/evm.go:EVM.StaticCall", ["return", "Snapshot", "AddBalance", "RevertToSnapshot", "return"]),
-  ("src/vm/evm.go:EVM.create", ["return", "return", "CanTransfer", "return", "return", "Snapshot", "Transfer", "RevertToSnapshot", "return"]),
+  ("src/vm/evm.go:EVM.create", ["return", "return", "CanTransfer", "return", "IsProposal006", "IsProposal007", "return", "Snapshot", "Transfer", "IsProposal026", "RevertToSnapshot", "return"]),
   ("src/vm/init.go:CanTransfer", ["Sign", "return", "return", "Cmp", "GetBalance"]),
   ("src/vm/init.go:Transfer", ["SubBalance", "AddBalance"]),
   ("src/vm/instructions.go:opStake", ["ParseUint", "GetMinerIdByAccount", "AddStake", "return"]),
